@@ -45,13 +45,17 @@ for d in sorted(glob.glob('/tmp/seeds/C*/[123]')):
         rc = re.search(r'EXIT=(\d+)', t)
         runs = re.search(r'(C\d+ \w+: \d+ runs[^\n]*)', t)
         checks[prop] = {'exit': int(rc.group(1)) if rc else None, 'signatures': sigs, 'summary': runs.group(1)[:200] if runs else ''}
-    caught = [p for p, c in checks.items() if c['exit'] == 1]
+    caught = [p for p, c in checks.items() if isinstance(c, dict) and c['exit'] == 1]
+    if os.path.exists(d + '/eval_note.txt'):
+        checks['note'] = open(d + '/eval_note.txt').read().strip()
     meta = {'property': PROP, 'seed': f'{ID}-{k}', 'title': title, 'files_changed': files, 'needs_to_manifest': needs,
             'confirmed_in_scratch_worktree': ver, 'checks_run': checks, 'caught_by': caught,
             'how_to_apply': f'git -C /repo apply /verif/seeded/{ID}-{k}/patch.diff ; ./check {PROP} quick ; git -C /repo checkout -- .  (or tools/eval_seed.sh {PROP} /verif/seeded/{ID}-{k}/patch.diff quick 30, which uses a scratch worktree)'}
     json.dump(meta, open(dst + '/meta.json', 'w'), indent=1)
     ok = ver['demo_passes_on_clean_tree'] and ver['demo_fails_with_change'] and ver['suite_passes_with_change']
-    sig = '; '.join(f"{p}: {', '.join(s.split('/',1)[1] for s in c['signatures'][:3])}" for p, c in checks.items() if c['exit'] == 1)
+    sig = '; '.join(f"{p}: {', '.join(s.split('/',1)[1] for s in c['signatures'][:3])}" for p, c in checks.items() if isinstance(c, dict) and c['exit'] == 1)
+    if 'note' in checks and sig:
+        sig += ' (see meta.json: note)'
     rows.append((f'{ID}-{k}', title[:110], 'yes' if ok else ('?' if ver['demo_passes_on_clean_tree'] is None else 'partly'), sig or ('— (missed)' if checks else 'not run')))
 print('| seed | change | confirmed | caught by (signatures) |\n|---|---|---|---|')
 for r in rows:
